@@ -4,6 +4,7 @@
 //! records what happened as ndjson; the TLA+ trace specifications under /verif/spec judge it.
 //! One binary per family of properties lives under src/bin/ (cargo discovers them).
 
+pub mod container;
 pub mod datum;
 pub mod dynde;
 pub mod generate;
